@@ -44,7 +44,8 @@ def cmdWrapPred : P String := do
 def cmdNormFallback : P String := do
   let nq ← nat
   let ys ← listOf float
-  let (m, s) := normalFallbackPredict Float.sqrt ys nq
+  let tiny : Float := Float.ofBits 0x0010000000000000   -- np.finfo(float).tiny = 2.2250738585072014e-308
+  let (m, s) := normalFallbackPredict Float.sqrt tiny ys nq
   pure (showOptFloats m ++ " | " ++ showOptFloats s)
 
 /-- `predictout <rs> <re> <nq> mean(nq) std(nq) ent(nq)` : shape of `ProbabilisticRegressor.predict`. -/
